@@ -108,6 +108,8 @@ pub struct SimSink {
     pub bytes_after_hard: usize,
     pub flushes: usize,
     pub flushes_after_hard: usize,
+    pub first_eintr_returned: bool,
+    pub calls_after_first_eintr: usize,
     pub stats: SinkStats,
 }
 
@@ -130,6 +132,8 @@ impl SimSink {
             bytes_after_hard: 0,
             flushes: 0,
             flushes_after_hard: 0,
+            first_eintr_returned: false,
+            calls_after_first_eintr: 0,
             stats: SinkStats::default(),
         }
     }
@@ -138,6 +142,9 @@ impl SimSink {
 impl io::Write for SimSink {
     fn write(&mut self, buf: &[u8]) -> io::Result<usize> {
         self.phys_calls += 1;
+        if self.first_eintr_returned {
+            self.calls_after_first_eintr += 1;
+        }
         sched::yield_point("sink.write");
         if self.hard_returned {
             self.calls_after_hard += 1;
@@ -210,6 +217,7 @@ impl io::Write for SimSink {
             self.eintr_left -= 1;
             self.continuation = true;
             self.stats.eintr_fired += 1;
+            self.first_eintr_returned = true;
             return Err(io::Error::new(io::ErrorKind::Interrupted, "injected EINTR"));
         }
         if buf.len() >= 2 {
